@@ -10,6 +10,7 @@ pub mod c05;
 pub mod c06;
 pub mod c07;
 pub mod c08;
+pub mod c09;
 pub mod c13;
 #[cfg(feature = "sched")]
 pub mod c14;
@@ -28,6 +29,7 @@ pub fn run(id: &str, o: &Opts, stats: &mut Stats) -> Option<usize> {
         "C06" => c06::run(o, stats),
         "C07" => c07::run(o, stats),
         "C08" => c08::run(o, stats),
+        "C09" => c09::run(o, stats),
         "C13" => c13::run(o, stats),
         #[cfg(feature = "sched")]
         "C14" => c14::run(o, stats),
